@@ -5,14 +5,14 @@ CFG = dict(
     theorems=["mat_add_entrywise", "mat_mul_row_col", "mat_identity", "mat_mul_one", "mat_one_mul", "mat_mul_assoc",
               "mat_det_eq", "mat_mul_inv", "mat_inv_mul", "mat_mulPosition", "mat_mulPosition_mul",
               "quat_rotate_mul", "quat_rotate_norm_general", "quat_rotate_norm", "quat_rotate_add", "quat_rotate_smul",
-              "quat_identity_rotate", "quat_fromTheta_unit", "quat_rotationTo_generic", "trs_transform",
+              "quat_identity_rotate", "quat_fromTheta_unit", "quat_rotationTo_generic", "halfturn_flips", "quat_rotationTo_antiparallel", "trs_transform",
               "aabb_setMinMax_min", "aabb_setMinMax_max", "aabb_contains_iff", "aabb_encapsulatePoint_contains",
               "aabb_encapsulatePoint_mono", "aabb_encapsulateBounds_contains", "aabb_encapsulateBounds_mono", "aabb_closestPoint_in_box", "aabb_closestPoint_id_inside"],
     streams=[dict(name="c17", n=dict(quick=300, thorough=20000),
                   ulps={"c17.quat.fromtheta": (8, 1e-15), "c17.quat.rotationto": (8, 1e-15)})],
     trusted=T_COMMON + ["sin/cos: Go math.Sin/Cos vs libm compared within 8 ulps (only FromTheta uses them)"],
     residue=["IEEE-754 rounding error of the same expressions (theorems are over ℝ); observed bit-for-bit against the model at Float, not proved",
-             "RotationTo antiparallel branch (axis choice) is corresponded and oracle-checked, not proved"],
+             "RotationTo parallel branch (dot > 0.999999) returns the identity: a is mapped onto itself, i.e. onto b only up to the 0.08° the threshold allows (corresponded; covered by the oracle with tolerance)"],
     assumptions=["float64 arithmetic in Go on amd64 is IEEE-754 without FMA contraction"],
     manifest=dict(
         text="Lean 4 theorems over ℝ about definitions regenerated from math/{mat,quaternion,trs,geometry} on every run (entrywise add, row-by-column product = Mathlib matrix product, identity/assoc/inverse laws, det = Matrix.det, quaternion composition/length/linearity, FromTheta unit, RotationTo maps a onto b, TRS = R(S∘v)+T, AABB encapsulate/closest-point containment); kernel-checked, axioms audited per theorem; the regenerated definitions are executed at Float and compared bit-for-bit with the Go functions, and the theorem predicates are evaluated on the Go functions' outputs.",
